@@ -79,7 +79,8 @@ pub fn cells_f32(v: &[f32]) -> Vec<Cell> {
     v.iter().map(|x| Cell::F(*x as f64)).collect()
 }
 pub fn cells_optf64(v: &[Option<f64>]) -> Vec<Cell> {
-    v.iter().map(|x| match x { Some(x) => Cell::F(*x), None => Cell::Null }).collect()
+    // an optional result must be canonical (DESIGN 5.4): `Some(NaN)` is not the null of an Option and is not read as one
+    v.iter().map(|x| match x { Some(x) if x.is_nan() => Cell::Err, Some(x) => Cell::F(*x), None => Cell::Null }).collect()
 }
 pub fn cells_i<T: Copy + Into<i128>>(v: &[T]) -> Vec<Cell> {
     v.iter().map(|x| Cell::Int((*x).into())).collect()
